@@ -177,6 +177,32 @@ def representation_stream():
                 same = isinstance(got, list) and isinstance(ref, list) and all(oracle.cell_eq(a, b, tol=1e-6) for a, b in zip(got, ref))
                 if not same and got != ref:
                     diffs.append(dict(kind="cast_depends_on_physical_representation", src=f"{col}:{ph}", tgt=str(target), got=got, canonical=ref))
+    # Float-typed *computed* values whose number comes from an integer column or literal (SQLite keeps INTEGER storage unless the
+    # compiler casts): the canonical float text - and the float value - must not depend on where the number came from
+    computed = {
+        "max(i, 0.5)": lambda t: pdt.max(t.i, 0.5), "max(0.5, i)": lambda t: pdt.max(0.5, t.i), "min(i, 2.5)": lambda t: pdt.min(t.i, 2.5),
+        "max(i, f)": lambda t: pdt.max(t.i, t.f), "min(f, i)": lambda t: pdt.min(t.f, t.i),
+        "i * 1.0": lambda t: t.i * 1.0, "i + 0.5 - 0.5": lambda t: t.i + 0.5 - 0.5, "coalesce(f, i)": lambda t: pdt.coalesce(t.f, t.i),
+        "coalesce(i, f)": lambda t: pdt.coalesce(t.i, t.f), "when(i > 0).then(i).otherwise(0.5)": lambda t: pdt.when(t.i > 0).then(t.i).otherwise(0.5),
+        "when(i > 0).then(0.5).otherwise(i)": lambda t: pdt.when(t.i > 0).then(0.5).otherwise(t.i),
+        "f.fill_null(i)": lambda t: t.f.fill_null(t.i), "i / 1": lambda t: t.i / 1, "i.cast(Float64)": lambda t: t.i.cast(pdt.Float64()),
+        "i.mean(partition_by=k)": lambda t: t.i.mean(partition_by=t.k), "i.max(partition_by=k) * 1.0": lambda t: t.i.max(partition_by=t.k) * 1.0,
+        "abs(i * 1.0)": lambda t: (t.i * 1.0).abs(), "floor(i + 0.5)": lambda t: (t.i + 0.5).floor(),
+    }
+    for name, f in computed.items():
+        for target in (pdt.String(), pdt.Int64(), pdt.Float64()):
+            outs = {}
+            for be in ("polars", "sqlite"):
+                t = pdt.Table(ref_df, name="r") if be == "polars" else pdt.Table("c17repr", pdt.SqlAlchemy(eng))
+                try:
+                    o = t >> pdt.mutate(y=f(t)) >> pdt.mutate(z=pdt.C.y.cast(target)) >> pdt.arrange(t.k) >> pdt.select(pdt.C.z) >> pdt.export(pdt.Polars())
+                    outs[be] = [P.encode_val(x) for x in o.get_column("z").to_list()]
+                except Exception as e:  # noqa: BLE001
+                    outs[be] = "error:" + type(e).__name__
+            n += 1
+            a, b = outs["polars"], outs["sqlite"]
+            if not (isinstance(a, list) and isinstance(b, list) and len(a) == len(b) and all(oracle.cell_eq(x, y, tol=1e-9) for x, y in zip(a, b))):
+                diffs.append(dict(kind="backends_differ", src=f"computed {name}", tgt=str(target), polars=a, sqlite=b))
     return diffs, n
 
 
